@@ -24,8 +24,8 @@
       `as_double()` of their text), `json_ref` storage and the `this == &rhs` shortcut) is tied to the real `compare()` and the six
       operators by the stream "compare-model" (`dom mcmp`, all ordered pairs of a 165-value boundary alphabet + generated nestings), and:
         - `compare_refl`, `compare_antisymm`: for values without NaN and without infinity (`finite`), `compare a a = 0` and
-          `compare b a = - compare a b`; both fail with NaN and with two infinities (`nan_compares_greater_both_ways`,
-          `inf_not_equal_to_itself`: inf - inf is NaN);
+          `compare b a = - compare a b`; both fail with NaN (`nan_compares_greater_both_ways`); equal infinities compare equal
+          since the repair D88 (`inf_equals_itself`; the theorems still exclude them only because `finite` was stated before it);
         - `eq_is_equivalence_partial`, `lt_is_strict_weak_order_partial`: on `dom L` — no NaN / infinity, no `json()` empty_object,
           stored integers within ±2^53, strings all short (≤ 13 bytes, L = false) or all long (L = true) — `==` is reflexive, symmetric
           and transitive, `<` is irreflexive and transitive, incomparability is `==` and is transitive, and `==` is a congruence
@@ -199,8 +199,11 @@ theorem nan_compares_greater_both_ways :
     Compare.compare (.dbl 0x7ff8000000000000) (.dbl 0x3ff0000000000000) = 1 ∧ Compare.compare (.dbl 0x3ff0000000000000) (.dbl 0x7ff8000000000000) = 1 := by
   simp only [Compare.compare]; decide
 
-/-- two infinities (distinct objects) are not equal: inf - inf is NaN. `dom mcmp d7ff0000000000000 d7ff0000000000000` -/
-theorem inf_not_equal_to_itself : opEq (.dbl 0x7ff0000000000000) (.dbl 0x7ff0000000000000) = false := by
+/-- two values holding the same infinity are equal (they were not before the repair D88: inf - inf is NaN), and -inf < +inf.
+    `dom mcmp d7ff0000000000000 d7ff0000000000000` -/
+theorem inf_equals_itself : opEq (.dbl 0x7ff0000000000000) (.dbl 0x7ff0000000000000) = true ∧
+    opEq (.dbl 0xfff0000000000000) (.dbl 0xfff0000000000000) = true ∧
+    Compare.compare (.dbl 0xfff0000000000000) (.dbl 0x7ff0000000000000) = -1 := by
   simp only [opEq, Compare.compare]; decide
 
 /-- the total preorder behind everything below: on `dom L`, `compare a b ≤ 0` is transitive -/
